@@ -132,6 +132,8 @@ structure Timer where
 structure BcInst where
   b : Nat
   node : Int
+  /-- still a value of `self.clients` (popped before it is closed) -/
+  inClients : Bool := true
   /-- `close()` has been called on it -/
   closed : Bool := false
   /-- its close Deferred has fired -/
@@ -303,6 +305,8 @@ inductive Act where
   | bcDown (b : Nat) (nested : Bool)
   | aggCheck
   | cancelBoots
+  | cancelU (u : Nat)
+  | mergeTopics (ts : List TopicMeta) (lo : LOwner)
   | finishClose (o : Nat)
   | opResult (o : Nat) (r : OpRes)
   deriving Repr
@@ -330,7 +334,7 @@ def timerActive (st : St) (w : TimerWhat) : Bool := st.timers.any (fun t => t.wh
 def cancelTimer (st : St) (w : TimerWhat) : St := { st with timers := st.timers.filter (fun t => !(t.what == w)) }
 
 def bcOfNode (st : St) (node : Int) : Option BcInst :=
-  (st.bcs.filter (fun i => i.node == node && !i.closed)).head?
+  (st.bcs.filter (fun i => i.node == node && i.inClients)).head?
 
 def bcGet (st : St) (b : Nat) : Option BcInst := (st.bcs.filter (fun i => i.b == b)).head?
 
@@ -380,7 +384,7 @@ def makeRequest (cfg : Cfg) (st : St) (b : Nat) (owner : ReqOwner) (expect : Boo
                        timers := insertTimer { what := .mrtb k, due := due } st.timers }
   let connected := match bcGet st b with | some i => i.conn | none => false
   let obs := [Ob.mk k b expect what] ++ (if !expect && connected then [Ob.fired k none] else []) ++ [Ob.setTimer (.mrtb k) due]
-  (st1, k, obs, if !expect && connected then [Act.fireReq k (.ok .none) true] else [])
+  (st1, k, obs, if !expect && connected then [Act.fireReq k (.ok .none) false] else [])
 
 def insertByNode (a : BcInst) : List BcInst → List BcInst
   | [] => [a]
@@ -398,8 +402,8 @@ def applyUpdate (st : St) (c' : Cache) (closedNodes : List Int) (bs : List Broke
   let upd : List Ob := byId.flatMap (fun e => match bcOfNode st e.1 with
     | some i => [Ob.bcUpdate i.b e.2.host e.2.port]
     | none => [])
-  let toClose := (sortByNode (st.bcs.filter (fun i => !i.closed && closedNodes.contains i.node))).map (·.b)
-  ({ st with cache := c' }, upd,
+  let toClose := (sortByNode (st.bcs.filter (fun i => i.inClients && closedNodes.contains i.node))).map (·.b)
+  ({ st with cache := c', bcs := st.bcs.map (fun i => if toClose.contains i.b then { i with inClients := false } else i) }, upd,
    if toClose.isEmpty then [] else toClose.map Act.closeBc ++ [Act.newAgg toClose])
 
 
@@ -448,9 +452,13 @@ def cancelUnaware (x : Unaware) : List Ob × List Act :=
   | .bootReq j _ => ([], [.bootResult j (.err .cancelled)])
   | .done => ([], [])
 
+/-- `self.clients[node_id].connected()`, `False` on `KeyError` -/
+def nodeConnected (st : St) (n : Int) : Bool :=
+  match bcOfNode st n with | some i => i.conn | none => false
+
+/-- `node_ids.sort(reverse=True, key=connected)` (stable) -/
 def connectedFirst (st : St) (nodes : List Int) : List Int :=
-  let isConn : Int → Bool := fun n => match bcOfNode st n with | some i => i.conn | none => false
-  nodes.filter isConn ++ nodes.filter (fun n => !isConn n)
+  nodes.filter (nodeConnected st) ++ nodes.filter (fun n => !nodeConnected st n)
 
 def decodeItems (rs : List (TP × Int × Int)) : List Resp := rs.map (fun r => { key := r.1, err := r.2.1, tag := r.2.2 })
 
@@ -536,9 +544,12 @@ def exec (cfg : Cfg) (st : St) : Act → St × List Ob × List Act
       | .load fetchAll lo =>
         match r with
         | .ok (.metadata bs ts) =>
-          let (c', closed) := mergeTopicMetadata st0.cache bs ts fetchAll
-          let (st1, obs, acts) := applyUpdate st0 c' closed bs
-          (st1, obs, acts ++ deliverLoad lo (.ok (.simple 1)))
+          -- `_merge_topic_metadata`: `_update_brokers` first — closing broker clients there fails their
+          -- requests synchronously (which may reset the cache) — then the per-topic loop
+          let byId := dictOfList (bs.map (fun b => (b.nodeId, b)))
+          let (c1, closed) := updateBrokersDict st0.cache byId (fetchAll && !byId.isEmpty)
+          let (st1, obs, acts) := applyUpdate st0 c1 closed bs
+          (st1, obs, acts ++ [.mergeTopics ts lo])
         | .ok .garbage => (st0, [], deliverLoad lo (.err (.other garbageCls)))
         | .ok _ => (st0, [.badOp "payload"], [])
         | .err kd => (st0, [], deliverLoad lo (if kd.isCancel then .ok .none else .err .unavailable))
@@ -697,7 +708,8 @@ def exec (cfg : Cfg) (st : St) : Act → St × List Ob × List Act
     let pend := (st.reqs.filter (fun q => q.pending && q.b == b)).reverse
     ({ st with bcs := st.bcs.map (fun i => if i.b == b then { i with closed := true, conn := false } else i) },
      [.bcClose b],
-     (if st.env.syncDown.contains b then [Act.bcDown b true] else []) ++ pend.map (fun q => Act.fireReq q.k (.err .clientClosed) true))
+     -- the close Deferred fires before the requests are failed, but nothing can observe it in between
+     pend.map (fun q => Act.fireReq q.k (.err .clientClosed) true) ++ (if st.env.syncDown.contains b then [Act.bcDown b true] else []))
   | .newAgg bs =>
     let a := st.aggs.length
     let waiting := bs.filter (fun b => match bcGet st b with | some i => !i.down | none => false)
@@ -719,7 +731,14 @@ def exec (cfg : Cfg) (st : St) : Act → St × List Ob × List Act
       | none => (st1, [], [.aggCheck])
   | .cancelBoots =>
     let bs := st.unawares.filter (fun x => match x.st with | .bootConn _ _ => true | .bootReq _ _ => true | _ => false)
-    (st, bs.flatMap (fun x => (cancelUnaware x).1), bs.flatMap (fun x => (cancelUnaware x).2))
+    (st, [], bs.map (fun x => Act.cancelU x.u))
+  | .mergeTopics ts lo =>
+    let tdict := dictOfList (ts.map (fun t => (t.name, t)))
+    ({ st with cache := tdict.foldl (fun c e => mergeTopic c e.2) st.cache }, [], deliverLoad lo (.ok (.simple 1)))
+  | .cancelU u =>
+    match unawareGet st u with
+    | none => (st, [.badOp "cancelU"], [])
+    | some x => let (obs, acts) := cancelUnaware x; (st, obs, acts)
   | .finishClose o =>
     let st1 := { st with cache := resetAll st.cache }
     match st1.closeDlist with
@@ -830,7 +849,8 @@ def step (cfg : Cfg) (st : St) (env : Env) (e : Ev) : St × List Ob :=
   | .close o =>
     if st.closing then (st, [.raised o "AttributeError"]) else
     let open_ := st.cache.clients.filterMap (fun cl => (bcOfNode st cl.1).map (·.b))
-    runActs cfg fuel { st with closing := true, cache := { st.cache with clients := [] } }
+    runActs cfg fuel { st with closing := true, cache := { st.cache with clients := [] },
+                               bcs := st.bcs.map (fun i => { i with inClients := false }) }
       (open_.map Act.closeBc ++ [.newAgg open_, .cancelBoots, .finishClose o]) []
   | .resetTopics ts => ({ st with cache := resetTopics st.cache ts }, [])
   | .fire k r => runActs cfg fuel st [.fireReq k r false] []
@@ -856,5 +876,36 @@ def step (cfg : Cfg) (st : St) (env : Env) (e : Ev) : St × List Ob :=
   | .advance dt =>
     if dt < 0 then (st, [.badOp "advance"]) else
     fireDue cfg (st.timers.length + fuel) { st with now := st.now + dt } []
+
+end Afkak.ClientNet
+
+namespace Afkak.ClientNet
+open Afkak.ClientCache
+
+/-- One item of an OBSERVED trace of the real client (recorded by `harness/lib/client_sim.py`): the
+    up-call that starts a step, the down-calls/results it caused, and the harness's annotations
+    (cache dump and reactor timers after the step; which operation a broker request belongs to;
+    what the simulated network saw). The monitors `Afkak.Monitor.C07/C11/C20` fold over these. -/
+inductive TItem where
+  | ev (e : Ev)
+  | ob (o : Ob)
+  | dump (c : Cache)
+  | timers (l : List (TimerWhat × Rat))
+  /-- request `k` carries the payloads `idxs` of the send operation `o` -/
+  | attr (k : Nat) (o : Nat) (idxs : List Nat)
+  /-- request `k` / bootstrap attempt `j` was made by the broker-unaware request instance `u` -/
+  | uattr (k : Nat) (u : Nat)
+  | battr (j : Nat) (u : Nat)
+  /-- the simulated network saw a connection attempt / a frame (recorded after `close()` only) -/
+  | net (what : String)
+  deriving Repr
+
+/-- the model's own trace for a list of events, in the same vocabulary -/
+def traceOf (cfg : Cfg) : St → List (Env × Ev) → List TItem
+  | _, [] => []
+  | st, (env, e) :: rest =>
+    let (st', obs) := step cfg st env e
+    [TItem.ev e] ++ obs.map TItem.ob ++ [TItem.dump st'.cache, TItem.timers (st'.timers.map (fun t => (t.what, t.due)))]
+      ++ traceOf cfg st' rest
 
 end Afkak.ClientNet
